@@ -364,6 +364,39 @@ Theorem C10_symtab_strictly_sorted : forall adj offset0 vaddr0 syms,
 Proof. exact load_symtab_strictly_sorted. Qed.
 Print Assumptions C10_symtab_strictly_sorted.
 
+(* update_symtab_using_dynsym (names of the merged table taken from defined .dynsym symbols): it
+   only renames - every entry keeps address, size and type - and a new name is the name of a dynamic
+   symbol whose (st_value + offset) lies inside that very entry ... *)
+Theorem C10_dynsym_update_consistent : forall offset dyn tab,
+  Forall2 (named_ok offset dyn) tab (fold_left (update_one offset) dyn tab).
+Proof. exact update_names_consistent. Qed.
+Print Assumptions C10_dynsym_update_consistent.
+
+(* ... in module-relative terms, for every first PT_LOAD address: the renamed entry holds
+   st_value - p_vaddr of the symbol it is named after *)
+Theorem C10_dynsym_update_relative : forall vaddr0 dyn s s',
+  (forall e, In e dyn -> 0 <= vaddr0 <= e_value e /\ e_value e < W64) ->
+  named_ok (elf_offset true 0 vaddr0) dyn s s' -> s_name s' <> s_name s ->
+  exists e, In e dyn /\ s_name s' = e_name e /\
+            s_addr s <= e_value e - vaddr0 /\ e_value e - vaddr0 < (s_addr s + s_size s) mod W64.
+Proof. exact update_names_relative. Qed.
+Print Assumptions C10_dynsym_update_relative.
+
+(* ... and the offset the function uses as built (generated flag: its local offset is assigned)
+   is that adjusted one *)
+Theorem C10_dynsym_update_offset_as_built : forall vaddr0,
+  (if dynsym_update_offset_adjusted then elf_offset true 0 vaddr0 else 0) = elf_offset true 0 vaddr0.
+Proof. exact update_offset_as_built. Qed.
+Print Assumptions C10_dynsym_update_offset_as_built.
+
+(* without the adjustment a far function at the offset that equals an exported function's absolute
+   address is renamed after it *)
+Theorem C10_dynsym_update_unadjusted_refuted :
+  fold_left (update_one 0) far_dyn far_tab = [mkSym 4352 32 84 [110;101;97;114]; mkSym 4198400 12288 84 [110;101;97;114]] /\
+  fold_left (update_one (elf_offset true 0 4194304)) far_dyn far_tab = far_tab.
+Proof. exact update_unadjusted_refuted. Qed.
+Print Assumptions C10_dynsym_update_unadjusted_refuted.
+
 (* ---------------------------------------------------------------- .sym files *)
 (* what save_module_symbol_file writes is read back by load_module_symbol_file as the same
    symbols, sorted by address - for every table inside the guard [tab_file_ok] (sizes with a
